@@ -27,7 +27,7 @@ static bool gen_c11(uint64_t seed, const std::string &tier, uint64_t i, Plan &p)
     for (int q = 0; q < n; q++) {
       bool wild = r.chance(0.5); std::string loc = r.pick(locs); if (!wild && loc.empty()) loc = "x";
       bool dup = !seen.insert((wild ? "+" : "=") + loc).second; (void)dup;
-      std::string uid = r.chance(0.1) ? "0" : std::to_string(500 + r.below(20)); std::string user = r.pick(std::vector<std::string>{"joe", "bill", "virt", "alias"});
+      std::string uid = r.chance(0.1) ? "0" : r.chance(0.06) ? r.pick(std::vector<std::string>{"4294967296", "8589934592", "12884901888", "00"}) /* zero as a 32-bit uid */ : std::to_string(500 + r.below(20)); std::string user = r.pick(std::vector<std::string>{"joe", "bill", "virt", "alias"});
       a += (wild ? "+" : "=") + mixc(r, loc) + ":" + user + ":" + uid + ":" + std::to_string(100 + r.below(5)) + ":/home/" + user + ":" + (r.chance(0.5) ? "-" : "") + ":" + (wild ? r.pick(std::vector<std::string>{"", "pre-", "x"}) : r.pick(std::vector<std::string>{"", "ext"})) + ":\n";
       (wild ? wild_locs : simple_locs).push_back(loc);
     }
